@@ -5,8 +5,11 @@
 
 #include <etl/_cstddef/size_t.hpp>
 #include <etl/_tuple/forward_as_tuple.hpp>
+#include <etl/_tuple/tuple.hpp>
+#include <etl/_tuple/tuple_element.hpp>
 #include <etl/_tuple/tuple_like.hpp>
 #include <etl/_tuple/tuple_size.hpp>
+#include <etl/_type_traits/remove_cvref.hpp>
 #include <etl/_type_traits/remove_reference.hpp>
 #include <etl/_utility/forward.hpp>
 #include <etl/_utility/index_sequence.hpp>
@@ -14,6 +17,34 @@
 namespace etl {
 
 namespace detail {
+
+// tuple<tuple_element_t<0, T>, ..., tuple_element_t<N - 1, T>> for a tuple-like T
+template <typename T, typename = etl::make_index_sequence<etl::tuple_size_v<T>>>
+struct tuple_cat_elements;
+
+template <typename T, etl::size_t... Is>
+struct tuple_cat_elements<T, etl::index_sequence<Is...>> {
+    using type = etl::tuple<etl::tuple_element_t<Is, T>...>;
+};
+
+// the element types of all operands, in order
+template <typename... Tuples>
+struct tuple_cat_result {
+    using type = etl::tuple<>;
+};
+
+template <typename... Ts>
+struct tuple_cat_result<etl::tuple<Ts...>> {
+    using type = etl::tuple<Ts...>;
+};
+
+template <typename... Ts, typename... Us, typename... Rest>
+struct tuple_cat_result<etl::tuple<Ts...>, etl::tuple<Us...>, Rest...>
+    : tuple_cat_result<etl::tuple<Ts..., Us...>, Rest...> { };
+
+template <typename... Tuples>
+using tuple_cat_result_t =
+    typename tuple_cat_result<typename tuple_cat_elements<etl::remove_cvref_t<Tuples>>::type...>::type;
 
 inline constexpr struct tuple_cat {
     template <etl::tuple_like T1, etl::tuple_like T2, etl::size_t... I1, etl::size_t... I2>
@@ -24,23 +55,27 @@ inline constexpr struct tuple_cat {
         return etl::forward_as_tuple(get<I1>(etl::forward<T1>(t1))..., get<I2>(etl::forward<T2>(t2))...);
     }
 
-    [[nodiscard]] constexpr auto operator()() const { return etl::tuple<>{}; }
-
-    template <etl::tuple_like Result>
-    [[nodiscard]] constexpr auto operator()(Result&& result) const
+    template <typename Ret>
+    [[nodiscard]] constexpr auto run() const -> Ret
     {
-        return [&]<etl::size_t... Is>(etl::index_sequence<Is...> /*is*/) {
+        return Ret();
+    }
+
+    template <typename Ret, etl::tuple_like Result>
+    [[nodiscard]] constexpr auto run(Result&& result) const -> Ret
+    {
+        return [&]<etl::size_t... Is>(etl::index_sequence<Is...> /*is*/) -> Ret {
             using etl::get;
-            return etl::tuple{get<Is>(etl::forward<Result>(result))...};
+            return Ret(get<Is>(etl::forward<Result>(result))...);
         }(etl::make_index_sequence<etl::tuple_size_v<etl::remove_reference_t<Result>>>{});
     }
 
-    template <etl::tuple_like Result, etl::tuple_like Head, etl::tuple_like... Tail>
-    [[nodiscard]] constexpr auto operator()(Result&& result, Head&& head, Tail&&... tail) const
+    template <typename Ret, etl::tuple_like Result, etl::tuple_like Head, etl::tuple_like... Tail>
+    [[nodiscard]] constexpr auto run(Result&& result, Head&& head, Tail&&... tail) const -> Ret
     {
         constexpr auto idx1 = etl::make_index_sequence<etl::tuple_size_v<etl::remove_reference_t<Result>>>{};
         constexpr auto idx2 = etl::make_index_sequence<etl::tuple_size_v<etl::remove_reference_t<Head>>>{};
-        return (*this)(
+        return this->template run<Ret>(
             concat(etl::forward<Result>(result), etl::forward<Head>(head), idx1, idx2),
             etl::forward<Tail>(tail)...
         );
@@ -50,9 +85,9 @@ inline constexpr struct tuple_cat {
 } // namespace detail
 
 template <etl::tuple_like... Tuples>
-[[nodiscard]] constexpr auto tuple_cat(Tuples&&... ts)
+[[nodiscard]] constexpr auto tuple_cat(Tuples&&... ts) -> etl::detail::tuple_cat_result_t<Tuples...>
 {
-    return etl::detail::tuple_cat(etl::forward<Tuples>(ts)...);
+    return etl::detail::tuple_cat.template run<etl::detail::tuple_cat_result_t<Tuples...>>(etl::forward<Tuples>(ts)...);
 }
 
 } // namespace etl
